@@ -18,6 +18,13 @@ import (
 // c08SignFact: what a branch condition says about the sign of its subject. The subject is the compared
 // term; for x.Sign() of a math/big number it is x itself. rel is one of "<0", "<=0", ">0", ">=0".
 func c08SignFact(e *fw.TermEnv, cd fw.Cond) (subj, rel string, ok bool) {
+	// math.Signbit(x) is the strict sign test of a float (true for -0): "<0" / ">0" in the sense the float arm needs
+	if cl, isCall := cd.Val.(*ssa.Call); isCall && fw.SxCallee(cl.Common()) == "math.Signbit" && len(cl.Common().Args) == 1 {
+		if cd.True {
+			return e.Term(cl.Common().Args[0]), "<0", true
+		}
+		return e.Term(cl.Common().Args[0]), ">0", true
+	}
 	b, isB := cd.Val.(*ssa.BinOp)
 	if !isB {
 		return "", "", false
